@@ -5,7 +5,7 @@
    [build_part c x] = what buildRequest puts into the request for one partition of the set (None = the Go code panics);
    [decoded_view r] = what the broker's decoder returns for the bytes the encoder writes for r (coq/Wire, C09a);
    [append_records base r] = the leader appending those records at log end offset [base] (= the base offset it answers);
-   [assign_offsets base msgs] = brokerProducer.handleSuccess on a NoError block with that base offset;
+   [handle_success c base bts msgs] = brokerProducer.handleSuccess on a NoError block with that base offset and Timestamp;
    [image c m] = the log entry that IS message m: its key and value (nil and empty distinguished), its headers from
    0.11 on (below 0.11 the dispatcher refuses messages with headers), its timestamp (the supplied one — or time.Now()
    when none was supplied — rounded down to a millisecond) from 0.10 on, no timestamp below 0.10 (message format v0). *)
@@ -18,13 +18,32 @@ Open Scope Z_scope.
 
 (* Message i of a partition's batch is reported at base + i, and the log holds exactly that message there — for every
    version generation, codec, idempotence setting, batch composition and base offset. *)
-Theorem c04_offset_identifies : forall c pid pepoch l k x r base i m,
+(* [handle_success c base bts msgs] = the ErrNoError branch of handleSuccess for a block with base offset [base] and
+   Timestamp [bts] (ZERO_TIME: log_append_time = -1 / no such field): the offset is assigned WHETHER OR NOT the block carries
+   a log-append time; the reported Timestamp is the block's from 0.10 when it is set, the application's own otherwise. *)
+Theorem c04_offset_identifies : forall c pid pepoch l k x r base bts i m,
   part_lookup k (s_parts (fst (add_all c (new_set pid pepoch) l))) = Some x ->
   build_part c x = Some r -> nth_error (ps_msgs x) i = Some m ->
-  nth_error (assign_offsets base (ps_msgs x)) i = Some (m, base + Z.of_nat i) /\
+  nth_error (handle_success c base bts (ps_msgs x)) i = Some (m, base + Z.of_nat i, reported_ts c bts m) /\
   log_lookup (base + Z.of_nat i) (append_records base (decoded_view r)) = Some (image c m).
 Proof. exact offset_identifies. Qed.
 Print Assumptions c04_offset_identifies.
+
+Theorem c04_reported_timestamp : forall c bts m,
+  reported_ts c bts m = if v0_10 c && negb (bts =? ZERO_TIME) then bts else pm_ts m.
+Proof. reflexivity. Qed.
+Print Assumptions c04_reported_timestamp.
+
+(* topic with LogAppendTime: the leader stamps what it appends with its clock and answers it: same offsets, the log entry is
+   the message's key, value and headers with the broker's time, which is also the Timestamp reported to the application *)
+Theorem c04_offset_identifies_log_append : forall c pid pepoch l k x r base lat i m,
+  part_lookup k (s_parts (fst (add_all c (new_set pid pepoch) l))) = Some x ->
+  build_part c x = Some r -> nth_error (ps_msgs x) i = Some m -> v0_10 c = true -> lat <> ZERO_TIME ->
+  nth_error (handle_success c base lat (ps_msgs x)) i = Some (m, base + Z.of_nat i, lat) /\
+  log_lookup (base + Z.of_nat i) (stamp_log lat (append_records base (decoded_view r))) =
+    Some (mkEntry (pm_key m) (pm_value m) (if v0_11 c then pm_headers m else []) (Some lat)).
+Proof. exact offset_identifies_log_append. Qed.
+Print Assumptions c04_offset_identifies_log_append.
 
 (* ... where "exactly that message" means: *)
 Theorem c04_image_preserves : forall c m,
